@@ -60,6 +60,7 @@ class Crash(BaseException):
 
 
 class CrashingFile:
+    """the file object `open(<name>.sql.tmp, "w")` returns while a crash is armed"""
     def __init__(self, f, crash):
         self.f, self.crash = f, crash
 
@@ -67,7 +68,7 @@ class CrashingFile:
         return self
 
     def write(self, s):
-        if self.crash[0] == 4:
+        if self.crash[0] == 3:               # the process dies during write: only a prefix reached the disk
             self.f.write(s[:self.crash[1]])
             self.f.close()
             raise Crash()
@@ -75,7 +76,7 @@ class CrashingFile:
 
     def __exit__(self, *a):
         self.f.close()
-        if self.crash[0] == 5 and a[0] is None:
+        if self.crash[0] == 4 and a[0] is None:     # … after close, before os.replace
             raise Crash()
         return False
 
@@ -117,14 +118,19 @@ def run_ops(ops):
     def fake_open(path, mode="r", *a, **k):
         c = armed[0]
         if c is not None and "w" in mode:
-            if c[0] == 2:
-                raise Crash()
             f = real_open(path, mode, *a, **k)
-            if c[0] == 3:
+            if c[0] == 2:                    # the process dies right after the file was created / truncated
                 f.close()
                 raise Crash()
             return CrashingFile(f, c)
         return real_open(path, mode, *a, **k)
+
+    real_replace = os.replace
+
+    def fake_replace(src, dst, *a, **k):
+        real_replace(src, dst, *a, **k)
+        if armed[0] is not None and armed[0][0] == 5:   # … right after the rename
+            raise Crash()
 
     inst, out = None, []
     try:
@@ -141,6 +147,7 @@ def run_ops(ops):
                 if parts[0] == "crash":
                     armed[0] = (int(parts[1]), int(parts[2]))
                     tool.open = fake_open
+                    os.replace = fake_replace
                 before = len(calls)
                 asked = lambda: "+" if len(calls) != before else "-"
                 try:
@@ -156,6 +163,7 @@ def run_ops(ops):
                     out.append(asked() + "E:" + k.replace(" ", "_"))
                 finally:
                     armed[0] = None
+                    os.replace = real_replace
                     if "open" in tool.__dict__:
                         del tool.open
             else:
